@@ -491,7 +491,7 @@ func runC03(c *kit.Ctx) {
 			},
 		})
 		c.Check(e == nil, send, "register-after-serialise", reg.Pos(), "every path to registerRPC serialised the request first", "the call is registered before it is serialised: a failure in between completes a call whose contents may be re-used")
-		for _, w := range append(kit.Calls(send, kit.M("region", "*client", "write")), kit.Calls(send, "(*net.Buffers).WriteTo")...) {
+		for _, w := range connWrites(p, send) {
 			c.Check(kit.Dominates(reg, w.(ssa.Instruction)), send, "register-before-write", w.Pos(), "registerRPC dominates the write", "the request can be written before the call is in the sent table: its response would be unexpected")
 		}
 	}
@@ -633,7 +633,7 @@ func readerErrorsAreFatal(c *kit.Ctx, recv *ssa.Function) {
 // returns after it attempted a write is a ServerError. Shared by C03.R6 and C05.R6.
 func writeErrorIsFatal(c *kit.Ctx, send *ssa.Function) {
 	p := c.P
-	writes := append(kit.Calls(send, kit.M("region", "*client", "write")), kit.Calls(send, "(*net.Buffers).WriteTo")...)
+	writes := connWrites(p, send)
 	good := len(writes) > 0
 	if good {
 		kit.Instrs(send, func(in ssa.Instruction) {
